@@ -21,6 +21,7 @@ import (
 	"strings"
 	"time"
 
+	"github.com/pentops/j5/internal/j5s/protobuild"
 	"github.com/pentops/j5/internal/zzverif/simrt"
 	"github.com/pentops/log.go/log"
 	"google.golang.org/protobuf/encoding/prototext"
@@ -194,6 +195,9 @@ func execSig(p *Program, cfg ExecCfg, ex *execState) uint64 {
 	}
 	if cfg.RealReader {
 		h = (h ^ 0x5ea1) * 1099511628211
+	}
+	if cfg.ListGenerated {
+		h = (h ^ 0x11d6) * 1099511628211
 	}
 	return (h ^ ex.sig) * 1099511628211
 }
@@ -385,6 +389,43 @@ func runWorker(master uint64, worker, workers, execs, maxProgs int, budget float
 		if err != nil {
 			stats.ProgramsDiscarded++
 			stats.DiscardReasons[truncate(err.Error(), 160)]++
+			// The canonical execution fails. If the very same program compiles under some other
+			// listing / iteration order, the failure is order-dependent: the property's "always
+			// yields" is broken from the other side.
+			if !seenKeys["order_dependent_error/reference"] {
+				progSeed := simrt.Derive(master, 0xe0, uint64(idx))
+				for e := 0; e < 12; e++ {
+					cfg := genExecCfg(p, simrt.Derive(progSeed, 0xbad, uint64(e)))
+					cfg.Mode, cfg.PermSites, cfg.PermListings, cfg.ListGenerated, cfg.RealReader = "perm_only", true, true, false, false
+					cfg.Ops = genOps(p, "perm_only", nil)
+					writeMarker(e, cfg)
+					okAll := true
+					func() {
+						ex := newExecState(cfg, nil)
+						simrt.SetPermHook(ex.perm)
+						defer simrt.SetPermHook(nil)
+						for _, pkg := range p.Packages {
+							ps, perr := protobuild.NewPackageSet(newMemDeps(p, ex), &memSource{prog: p, ex: ex})
+							if perr != nil {
+								okAll = false
+								return
+							}
+							if _, cerr, pan := compileOutputs(context.Background(), ps, pkg); cerr != nil || pan != "" {
+								okAll = false
+								return
+							}
+						}
+					}()
+					stats.Executions++
+					if okAll {
+						seenKeys["order_dependent_error/reference"] = true
+						res.Violations = append(res.Violations, &Replay{Property: "C14", MasterSeed: master, ProgIndex: idx, ExecIndex: e, Program: p.ToJSON(), Exec: cfg,
+							Violation: &Violation{Class: "order_dependent_error", Form: "reference", OpIndex: -1, Detail: "the canonical execution (sorted listings, identity orders) fails with: " + truncate(err.Error(), 400) + "\nbut the same program compiles under the permuted orders of this execution"},
+							FindingKey: "order_dependent_error/reference", Minimised: false})
+						break
+					}
+				}
+			}
 			continue
 		}
 		for k, v := range p.Features {
@@ -537,6 +578,29 @@ func runReplay(file string) int {
 	if err != nil {
 		fmt.Fprintln(os.Stderr, "replay:", err)
 		return 2
+	}
+	if rp.Violation.Class == "order_dependent_error" && rp.Violation.Form == "reference" {
+		_, rerr := computeReference(p)
+		if rerr == nil {
+			fmt.Println("REPLAY: no violation (the canonical execution compiles on this tree)")
+			return 0
+		}
+		ex := newExecState(rp.Exec, nil)
+		simrt.SetPermHook(ex.perm)
+		defer simrt.SetPermHook(nil)
+		for _, pkg := range p.Packages {
+			ps, perr := protobuild.NewPackageSet(newMemDeps(p, ex), &memSource{prog: p, ex: ex})
+			if perr != nil {
+				fmt.Println("REPLAY: no violation (fails under the recorded orders too)")
+				return 0
+			}
+			if _, cerr, pan := compileOutputs(context.Background(), ps, pkg); cerr != nil || pan != "" {
+				fmt.Println("REPLAY: no violation (fails under the recorded orders too)")
+				return 0
+			}
+		}
+		fmt.Printf("REPLAY: violation class=order_dependent_error form=reference: the canonical execution fails (%s) but the same program compiles under the recorded listing/iteration orders %v\n", truncate(rerr.Error(), 300), appliedSites(ex.applied))
+		return 1
 	}
 	ref, err := computeReference(p)
 	if err != nil {
